@@ -382,6 +382,11 @@ func (sc *ServerConfig) Initialize(tlsCertStore *tlscerts.Store, listenConfigCac
 		if !sc.TunnelRemoteAddress.IsValid() {
 			return errors.New("tunnelRemoteAddress is required for simple tunnel")
 		}
+		if sc.TunnelUDPTargetOnly && !sc.TunnelRemoteAddress.IsIP() {
+			// Replies are filtered by comparing their source with the tunnel address,
+			// which is only possible (and only meaningful) for an IP address.
+			return errors.New("tunnelUDPTargetOnly requires tunnelRemoteAddress to be an IP address")
+		}
 
 	case "http":
 		if err := sc.HTTP.Validate(); err != nil {
